@@ -127,6 +127,13 @@ func (ec *EvalCtx) ident(name string) Val {
 	if v, ok := st.ghostLocals[name]; ok {
 		return v
 	}
+	if st.fr != nil {
+		for fr := st.fr.parent; fr != nil; fr = fr.parent {
+			if v, ok := fr.names[name]; ok {
+				return v
+			}
+		}
+	}
 	if s, ok := specialConsts[name]; ok {
 		return TV{Term{s, SInt}, types.Typ[types.Int]}
 	}
@@ -581,6 +588,32 @@ func (ec *EvalCtx) call(e *CExpr) Val {
 		default:
 			return TV{x, t}
 		}
+	case "$addr":
+		// address of an address-taken local of the function (e.g. the entry allocated by PriorityQueue.Enqueue)
+		if e.Args[0].Kind == "ident" {
+			lookup := func(m map[string]Val) (Val, bool) { v, ok := m["&"+e.Args[0].Name]; return v, ok }
+			if v, ok := lookup(ec.names); ok {
+				return v
+			}
+			if st.fr != nil {
+				for fr := st.fr; fr != nil; fr = fr.parent {
+					if v, ok := lookup(fr.names); ok {
+						return v
+					}
+				}
+			}
+		}
+		fail("$addr: %s is not an address-taken local", e.Args[0])
+	case "$mk":
+		// the interface value made from a pointer value
+		v := arg(0)
+		tv, ok := v.(TV)
+		if !ok || tv.Typ == nil {
+			fail("$mk needs a typed pointer value: %s", e.Args[0])
+		}
+		vc.modules["iface"] = true
+		vc.strLits["ptrtid."+typeRepr(tv.Typ)] = "ptrtid"
+		return TV{app("mkptr", SInt, vc.typeID(tv.Typ), tv.T), nil}
 	case "$typeof":
 		vc.modules["iface"] = true
 		return TV{app("typeof", SInt, argT(0)), it}
@@ -761,7 +794,9 @@ func (ec *EvalCtx) quant(e *CExpr) Val {
 		}
 		n.bound[b.Name] = v
 	}
+	st.inQuant++
 	body := n.evalBool(e.Args[0])
+	st.inQuant--
 	_ = rangeFacts
 	pat := ""
 	if len(e.Trig) > 0 {
